@@ -129,6 +129,27 @@ func (l *ExpandedLexer) nextToken() Token {
 		tok.Type = PLUS
 		tok.Literal = string(l.ch)
 		l.readChar()
+	// `%` is also the modulo operator, and `glyph expand` rewrites a sigil
+	// only where it starts a line: `if c { $ x = 1 }` keeps its `$`. The
+	// expanded lexer therefore has to read these symbols as the compact
+	// lexer does; refusing them made every program that uses `%` (or a
+	// one-line block) unreadable once expanded.
+	case '%':
+		tok.Type = PERCENT
+		tok.Literal = string(l.ch)
+		l.readChar()
+	case '$':
+		tok.Type = DOLLAR
+		tok.Literal = string(l.ch)
+		l.readChar()
+	case '@':
+		tok.Type = AT
+		tok.Literal = string(l.ch)
+		l.readChar()
+	case '~':
+		tok.Type = TILDE
+		tok.Literal = string(l.ch)
+		l.readChar()
 	case '*':
 		tok.Type = STAR
 		tok.Literal = string(l.ch)
